@@ -19,13 +19,18 @@ type userCall struct {
 	res    []*eng.Term
 	pos    string
 	fnTerm *eng.Term // the function value called (field / dynamic calls)
+	locked bool      // a mutex was held when the call was made
 }
-type userCallState struct{ calls []userCall }
+type userCallState struct {
+	calls []userCall
+	held  int8 // mutexes currently held (read or write)
+}
 
 func (s userCallState) Key() string {
 	var sb strings.Builder
+	fmt.Fprintf(&sb, "%d|", s.held)
 	for _, c := range s.calls {
-		sb.WriteString(c.class + "(")
+		sb.WriteString(c.class + fmt.Sprint(c.locked) + "(")
 		for _, a := range c.args {
 			sb.WriteString(a.Key() + ",")
 		}
@@ -45,9 +50,9 @@ func (s userCallState) Terms() []*eng.Term {
 	return out
 }
 func (s userCallState) Rename(sub func(*eng.Term) *eng.Term) eng.MState {
-	n := userCallState{}
+	n := userCallState{held: s.held}
 	for _, c := range s.calls {
-		nc := userCall{class: c.class, pos: c.pos}
+		nc := userCall{class: c.class, pos: c.pos, locked: c.locked}
 		if c.fnTerm != nil {
 			nc.fnTerm = c.fnTerm.Map(sub)
 		}
@@ -68,8 +73,22 @@ func (userCallMon) Name() string     { return "usercalls" }
 func (userCallMon) Init() eng.MState { return userCallState{} }
 func (userCallMon) OnEvent(c *eng.Ctx, ms eng.MState, ev *eng.Event) eng.MState {
 	s := ms.(userCallState)
+	if ev.Kind == "call" {
+		switch ev.Class {
+		case "lock", "rlock":
+			if s.held < 3 {
+				s.held++
+			}
+			return s
+		case "unlock", "runlock":
+			if s.held > 0 {
+				s.held--
+			}
+			return s
+		}
+	}
 	if ev.Kind == "call" && (strings.HasPrefix(ev.Class, "field:") || strings.HasPrefix(ev.Class, "dyn:") || strings.HasPrefix(ev.Class, "sum:")) && len(s.calls) < 4 {
-		n := userCallState{calls: append(append([]userCall(nil), s.calls...), userCall{class: ev.Class, args: ev.Args, res: ev.Results, pos: posStr(ev.Pos), fnTerm: ev.FnTerm})}
+		n := userCallState{held: s.held, calls: append(append([]userCall(nil), s.calls...), userCall{class: ev.Class, args: ev.Args, res: ev.Results, pos: posStr(ev.Pos), fnTerm: ev.FnTerm, locked: s.held > 0})}
 		return n
 	}
 	return s
@@ -598,6 +617,13 @@ func analyzeDelegators(p *load.Program, r *Roles, res *UnitResult) {
 					if uc.fnTerm != nil && (strings.HasPrefix(uc.class, "field:") || strings.HasPrefix(uc.class, "dyn:")) {
 						set := pth.e.Eval(pth.st.Facts(), eng.Bin("!=", uc.fnTerm, eng.Nil())) == eng.TriTrue
 						col.CheckAt("C01.R6,C19.R8", tn+"."+m+":calls-set-function", set, uc.pos, "the method calls "+uc.fnTerm.Pretty()+" on a path where it is not known to be set: a node built without that function would panic instead of behaving as the default", nil)
+					}
+				}
+				// user code runs with no lock of the node held: a callback under the node's lock blocks
+				// every configuration read of the running batch as soon as a writer queues up
+				for _, uc := range pth.calls {
+					if strings.HasPrefix(uc.class, "field:") || strings.HasPrefix(uc.class, "dyn:") || strings.HasPrefix(uc.class, "sum:") {
+						col.CheckAt("C08.R8,C01.R6", tn+"."+m+":calls-outside-lock", !uc.locked, uc.pos, "the method calls "+uc.class+" while holding a lock: with the node's lock held across user code, a pending configuration write blocks the other items' executions (the configured concurrency is not usable) and a callback that reads the node's settings can deadlock", nil)
 					}
 				}
 				// a phase method does its work exactly once: the configured function, or the
